@@ -64,6 +64,29 @@ def ns():
     def pdiv(x):
         return 10 // x
 
+    RAISED = []
+
+    def raiser(tname, when=lambda *a, **k: True):
+        """a user callable that raises a fresh exception of the named type (recorded in RAISED) when `when` holds of its arguments"""
+        import builtins as _b
+        T_ = getattr(_b, tname, None) or type(tname, (Exception,), {})
+
+        def user_code(*a, **k):
+            if when(*a, **k):
+                x = T_("user-code failure")
+                RAISED.append(x)
+                raise x
+            return a[0] if a else None
+        return user_code
+
+    def ds_body(fn, *deps):
+        """a dataset whose body is fn applied to its (evaluated) arguments"""
+        names = [f"a{i}" for i in range(len(deps))]
+        src = f"def body({', '.join(f'{n}=deps[{i}]' for i, n in enumerate(names))}):\n    return fn({', '.join(names)})"
+        env = {"deps": deps, "fn": fn}
+        exec(src, env)
+        return dataset(env["body"])
+
     LOG = []
 
     def mkns():
@@ -171,6 +194,22 @@ RECIPES = {
                 "ds(Option('A'), Option('B', 0), options={'X': 1}, default_options={'B': 3})"],
     "Map": ["Map(Option('S.X'), {'S.X': Option('XS')}).apply(list)", "Map(ds(Option('S.X'), Option('S.Y', 0)), {'S.X': [1, 2], 'S.Y': Option('XS')}).apply(list)","Map(switch(Option('K'), {'x': Option('X'), 'y': Option('Y')}), {'K': Option('KINDS')}).apply(list)","Map(Option('A'), {'A': Option('XS')}).apply(list)", "Map(ds(Option('A'), Option('B', 0)), {'A': Option('A'), 'B': Option('Y')}).apply(list)", "Map(Option('A'), {'A': Option('A')}).apply(list)", "Map(ds(Option('A'), Option('B', 0)), {'A': Option('XS'), 'B': [1, 2]}).apply(list)"],
 }
+
+# user code that raises (law L6u): {T} ranges over USER_EXC; every position in which a user callable runs and a failure is not absorbed by design
+USER_EXC = ["StopIteration", "KeyError", "ValueError", "TypeError", "AttributeError", "AssertionError", "LookupError", "IndexError", "RuntimeError", "ZeroDivisionError",
+            "OSError", "StopAsyncIteration", "ArithmeticError", "NotImplementedError", "UserDefinedError"]
+USER_RECIPES = ["case(Option('A', 0)).when(raiser({T!r}), 'r1').when(lambda a: True, 'r2').otherwise('d')",
+                "case(Option('A', 0)).when(lambda a: False, 'r0').when(raiser({T!r}), 'r1').otherwise('d')",
+                "case(Option('A', 0)).when(raiser({T!r}), 'r1')",
+                "case(Option('A', 0)).when(raiser({T!r}, lambda a: a == 1), 'r1').when(raiser({T!r}, lambda a: a == 2), 'r2').otherwise('d')",
+                "case(Option('A', 0) >> raiser({T!r})).when(lambda a: True, 'r1').otherwise('d')",
+                "Option('A', 1).apply(raiser({T!r}))", "Option('A', 1).bind(raiser({T!r}))", "FunctionApplication(raiser({T!r}), Option('A', 1))",
+                "Option('A', 1) >> PipelineStep(Value(raiser({T!r})), 's')", "Option('A', 1) >> (Pipeline() + inc + raiser({T!r}))", "Iter(Option('A', 1), Option('B', 2)) >> F.map(raiser({T!r})) >> list",
+                "Iter(Option('A', 1) >> raiser({T!r}), Option('B', 2)).apply(list)", "Map(Option('X') >> raiser({T!r}), {'X': [1, 2]}).apply(list)",
+                "ds_body(raiser({T!r}), Option('A', 1))", "ds_body(ident, Option('A', 1) >> raiser({T!r}))", "ds_eff(raiser({T!r}))", "dataset(lambda a=Option('A', 1): a, callback=raiser({T!r}))",
+                "cached(Option('A', 1) >> raiser({T!r}))", "WithOptions(Option('A', 1) >> raiser({T!r}), {'B': 1})", "Template('{:p:}', p=Option('A', 1) >> raiser({T!r}))",
+                "Overloaded(Option('A', 1), {1: Option('B', 2) >> raiser({T!r})})", "switch(Option('A', 1), {1: Option('B', 2) >> raiser({T!r})}, 'dflt')",
+                "Option('Q', Option('A', 1) >> raiser({T!r}))", "Option('A', 1, domain=raiser({T!r}))", "EvaluatableArguments(Option('A', 1) >> raiser({T!r}), b=Option('B', 2))"]
 
 VALUES = [1, 2, 0, None, "{B}", [1, 2], {"X": 1}, True]
 KEYS = ["A", "B", "T", "X", "Y", "Z", "S", "FN", "DOM", "XS", "L"]
@@ -289,9 +328,96 @@ def same(a, b):
     return True
 
 
+def strict_eq(a, b):
+    """equal AND of the same types throughout (0 / 0.0 / False and 1 / 1.0 / True are different values)"""
+    if callable(a) and callable(b):
+        return True
+    if type(a) is not type(b):
+        return False
+    try:
+        if isinstance(a, (list, tuple)):
+            return len(a) == len(b) and all(strict_eq(x, y) for x, y in zip(a, b))
+        if isinstance(a, dict):
+            return len(a) == len(b) and all(any(strict_eq(k, k2) and strict_eq(v, b[k2]) for k2 in b) for k, v in a.items())
+        if isinstance(a, (set, frozenset)):
+            return len(a) == len(b) and all(any(strict_eq(x, y) for y in b) for x in a)
+        return a == b
+    except Exception:  # noqa
+        return True
+
+
+def strict_same(a, b):
+    if a[0] != b[0]:
+        return False
+    return strict_eq(a[1], b[1]) if a[0] == "ok" else True
+
+
+HS_CONSTS = [0, 0.0, False, 1, 1.0, True, "", None, 2, 2.0, "a"]
+# classes whose instances hold no declared store (no cache, no dispatch table): two evaluations of ONE instance are independent
+HS_CLASSES = ["Value", "Option", "Apply", "Bind", "Switch", "CaseWhen", "Coalesce", "Iter", "EvaluatableArgs", "EvaluatableKwargs", "EvaluatableArguments",
+              "FunctionApplication", "PartialApplication", "PipelineStep", "Pipeline", "Template", "WithOptions"]
+HS_EXTRA = ["Option('A', domain=lambda t: type(t) is int and t in (1, 2))", "Option('A', domain=Option('DOM'))", "Option('A', 1, domain=Option('DOM', [1]))",
+            "switch(Option('A'), {1: 0, 2: 0.0}, False)", "Iter(1.0, 0, True, 1, False, 0.0).apply(list)", "coalesce(Option('A'), 0)", "Option('A', 1.0)", "Option('B', True)"]
+
+
+def _type_variant(v):
+    if v is True:
+        return 1
+    if v is False:
+        return 0
+    if isinstance(v, int):
+        return {0: False, 1: True}.get(v, float(v))
+    if isinstance(v, float) and v == int(v):
+        return int(v)
+    return v
+
+
+def hs_warmups(o):
+    """dictionaries the same instance is evaluated with BEFORE o: equal-but-differently-typed values, another value, a domain that admits / rejects"""
+    out = [copy.deepcopy(o)]
+    for k, v in o.items():
+        if isinstance(v, (bool, int, float)):
+            w = copy.deepcopy(o)
+            w[k] = _type_variant(v)
+            out.append(w)
+            w = copy.deepcopy(o)
+            w[k] = 2 if v == 1 else 1
+            out.append(w)
+    if "A" in o and not isinstance(o["A"], (dict, list)):
+        w = copy.deepcopy(o)
+        w["DOM"] = [o["A"]]
+        out.append(w)
+    if "DOM" in o:
+        w = copy.deepcopy(o)
+        w["DOM"] = [99]
+        out.append(w)
+    return out
+
+
 def check_law(law, expr, o, fresh):
     """returns None or a message. `fresh()` builds a new instance of the expression (cold caches)."""
     from labrea.exceptions import EvaluationError, InsufficientInformationError
+    if law == "HS":
+        # no hidden state: what an instance returns for o does not depend on what it (or anything else) was evaluated with before
+        if expr.startswith("CONST:"):
+            from labrea.types import Evaluatable
+            order = HS_CONSTS if o.get("rev") is None else HS_CONSTS[::-1]
+            for c in order:
+                got = outcome(lambda: Evaluatable.ensure(c).evaluate({}))
+                if not strict_same(got, ("ok", c)):
+                    return f"the constant {c!r} evaluates to {got[1]!r} (of {type(got[1]).__name__}) after the constants {order[:order.index(c)]!r} were wrapped"
+            return None
+        want = outcome(lambda: fresh()(copy.deepcopy(o)))
+        for w in hs_warmups(o):
+            e = fresh()
+            if not hasattr(e, "evaluate"):
+                return None
+            outcome(lambda: e(copy.deepcopy(w)))
+            got = outcome(lambda: e(copy.deepcopy(o)))
+            if not strict_same(got, want) or (got[0] == "err" and type(origin(got[1])) is not type(origin(want[1]))):
+                shown = lambda r: r if r[0] == "ok" else ("err", repr(r[1])[:100])   # noqa
+                return f"after one evaluation with {w!r} the same instance gives {shown(got)!r} for {o!r}; a fresh instance gives {shown(want)!r}"
+        return None
     e = fresh()
     if law != "C04" and not hasattr(e, "evaluate"):
         return None
@@ -360,7 +486,7 @@ def check_law(law, expr, o, fresh):
         want = ref_outcome(fresh(), o)
         if want[0] == "unknown":
             return None
-        if got[0] != want[0] or (got[0] == "ok" and not same(got, want)):
+        if got[0] != want[0] or (got[0] == "ok" and not strict_same(got, want)):
             shown = got if got[0] == "ok" else ("err", repr(got[1])[:120])
             return f"evaluate gives {shown!r}; the eager computation gives {want!r}"
         return None
@@ -411,7 +537,7 @@ def check_law(law, expr, o, fresh):
         n = type(e).__name__
         if n == "Option":
             got, want = outcome(lambda: e(copy.deepcopy(o))), ref_outcome(fresh(), o)
-            if want[0] != "unknown" and (got[0] != want[0] or (got[0] == "ok" and not same(got, want))):
+            if want[0] != "unknown" and (got[0] != want[0] or (got[0] == "ok" and not strict_same(got, want))):
                 return f"Option gives {got if got[0] == 'ok' else ('err', repr(got[1])[:100])!r}; independent lookup gives {want!r}"
             v = 7
             snap = copy.deepcopy(o)
@@ -492,6 +618,26 @@ def check_law(law, expr, o, fresh):
                 if not isinstance(mk, str) or present(o, mk):
                     return f"{what} fails for a missing option but names {mk!r}, which is present in {o}"
         return None
+    if law == "L6u":
+        # user code that raises: the failure surfaces as an EvaluationError whose source is e and whose cause chain reaches THE exception raised
+        raised = ns()["RAISED"]
+        del raised[:]
+        ev = outcome(lambda: e(copy.deepcopy(o)))
+        mine = list(raised)
+        del raised[:]
+        if not mine:
+            return None           # the raising callable did not run on this input
+        if ev[0] == "ok":
+            return f"user code raised {mine[0]!r} during the evaluation, which returned {ev[1]!r} as if nothing had failed"
+        x = ev[1]
+        if not isinstance(x, EvaluationError):
+            return f"evaluate raised {x!r}, not an EvaluationError"
+        if x.source is not e:
+            return f"EvaluationError.source is {x.source!r}, not the object evaluate() was called on"
+        ch = list(chain(x))
+        if not any(y is m for y in ch for m in mine):
+            return f"user code raised {mine[0]!r} but the cause chain of the reported error never reaches it: {[type(y).__name__ for y in ch]}"
+        return None
     if law == "L6":
         ev = outcome(lambda: e(copy.deepcopy(o)))
         if ev[0] == "err":
@@ -512,7 +658,7 @@ def check_law(law, expr, o, fresh):
 
 
 LAW_OF_GROUP = {"L1": ["L1"], "L2": ["L2"], "L3": ["L3"], "L4a": ["L4a"], "L4t": ["L4t"], "L5": ["L5"], "L5b": ["L5b"], "L5d": ["L5d"],
-                "L6": ["L6"], "L6k": ["L6k"], "L6v": ["L6v"], "spec": ["L4a", "L5", "L5d", "L6v"], "C05": ["C05"], "C08": ["C08"], "FP": ["FP"], "fingerprint": ["FP"], "soundness": ["FP"], "C04": ["C04"], "C06": ["C06"], "C06c": ["C06"], "with_options": ["C08"], "with_default_options": ["C08"], "tower": ["C08", "C05"]}
+                "L6": ["L6", "L6u"], "L6u": ["L6u"], "L6k": ["L6k"], "L6v": ["L6v"], "spec": ["L4a", "L5", "L5d", "L6v"], "C05": ["C05"], "C08": ["C08"], "FP": ["FP"], "fingerprint": ["FP"], "soundness": ["FP"], "C04": ["C04"], "HS": ["HS"], "C06": ["C06"], "C06c": ["C06"], "with_options": ["C08"], "with_default_options": ["C08"], "tower": ["C08", "C05"]}
 
 
 def build(recipe):
@@ -612,6 +758,50 @@ def known_region(recipe, o, law):
         if n == "Computation":                        # F15: effects whose outcome depends on the options (their keys are not reported)
             return "F15" if law in ("L2",) or (law == "L4a" and not recipe.startswith("ds_eff(")) else False
     return False
+
+
+def hidden_state_search(seed=0, budget=25):
+    """witness search for the frame obligations (<Class>:frame, <module>:globals-frame): one instance evaluated twice, constants of equal value and different type"""
+    for rev in (None, 1):
+        case = {"law": "HS", "recipe": "CONST:", "options": {"rev": rev} if rev else {}, "class": "Value"}
+        msg = check_law("HS", "CONST:", case["options"], None)
+        if msg:
+            return {"module": "harness.lawsearch", "case": case, "message": msg}
+    rnd = random.Random(seed)
+    ds_ = dict_universe(rnd, budget) + [{"A": True}, {"A": 1.0, "B": 1}, {"A": 2.0}, {"A": 1, "DOM": [2]}, {"A": False, "B": 0}]
+    for cls in ["HS_EXTRA"] + HS_CLASSES:
+        for recipe in (HS_EXTRA if cls == "HS_EXTRA" else RECIPES.get(cls, [])):
+            if "cached(" in recipe or "ds(" in recipe or "ds_eff(" in recipe or "rec(" in recipe:
+                continue
+            for o in ds_:
+                try:
+                    msg = check_law("HS", recipe, o, lambda: build(recipe))
+                except Exception:  # noqa
+                    continue
+                if msg:
+                    return {"module": "harness.lawsearch", "case": {"law": "HS", "recipe": recipe, "options": json.loads(json.dumps(o)), "class": cls}, "message": msg}
+    return None
+
+
+def user_exception_search(seed=0, budget=6):
+    """law L6u over USER_RECIPES x USER_EXC x a few dictionaries"""
+    rnd = random.Random(seed)
+    ds_ = [{}, {"A": 1}, {"A": 2, "B": 3}, {"A": 0}] + dict_universe(rnd, 0)[4:4 + budget]
+    n = 0
+    for recipe_t in USER_RECIPES:
+        for T_ in USER_EXC:
+            recipe = recipe_t.replace("{T!r}", repr(T_))
+            if T_ == "StopIteration" and "F.map(" in recipe:
+                continue          # python's own list(map(f, xs)) ends quietly when f raises StopIteration: the documented operation does the same
+            for o in ds_:
+                n += 1
+                try:
+                    msg = check_law("L6u", recipe, o, lambda: build(recipe))
+                except Exception:  # noqa
+                    continue
+                if msg:
+                    return {"module": "harness.lawsearch", "case": {"law": "L6u", "recipe": recipe, "options": json.loads(json.dumps(o)), "class": "user-code"}, "message": msg}, n
+    return None, n
 
 
 def search(cls, law, seed=0, budget=300, known=()):
